@@ -1,6 +1,6 @@
 (* Dispatch.v — one entry point `run op arg` for every executable model and spec.
    Used identically by the extracted runner (coq/extract) and by `Eval vm_compute` re-evaluation. *)
-From Verif Require Import PyVal Rows Enc ComparableGen AsIndicesGen Order Sort SortSpec Dedup DedupSpec Basics SetOps SetSpec Joins Relational HashJoins Reductions GroupSpec Machines.
+From Verif Require Import PyVal Rows Enc ComparableGen AsIndicesGen Order Sort SortSpec Dedup DedupSpec Basics SetOps SetSpec Joins Relational HashJoins Reductions GroupSpec Machines Selects.
 Open Scope Z_scope.
 
 Definition run_cmp (arg : val) : val :=
@@ -500,6 +500,90 @@ Definition run_sv_history (arg : val) : val :=
   | _ => bad_input
   end.
 
+(* ---- selections ------------------------------------------------------------------------------------------ *)
+Definition dec_vpred (v : val) : option vpred :=
+  match v with
+  | VSeq _ (VStr tag :: args) =>
+      match args with
+      | [] => if zs_eqb tag "isnone" then Some PIsNone else if zs_eqb tag "isnotnone" then Some PIsNotNone
+              else if zs_eqb tag "true" then Some PTrue else if zs_eqb tag "false" then Some PFalse else None
+      | [c] => if zs_eqb tag "eq" then Some (PEq c) else if zs_eqb tag "ne" then Some (PNe c)
+               else if zs_eqb tag "lt" then Some (PLt c) else if zs_eqb tag "le" then Some (PLe c)
+               else if zs_eqb tag "gt" then Some (PGt c) else if zs_eqb tag "ge" then Some (PGe c)
+               else if zs_eqb tag "in" then Some (PIn c) else if zs_eqb tag "notin" then Some (PNotIn c)
+               else if zs_eqb tag "contains" then Some (PContains c)
+               else if zs_eqb tag "isinstance" then match c with VStr t => Some (PIsInstance t) | _ => None end
+               else if zs_eqb tag "user" then match dec_Z c with Some i => Some (PUser i) | None => None end
+               else None
+      | [a; b] => if zs_eqb tag "rangeopenleft" then Some (PRangeOpenLeft a b)
+                  else if zs_eqb tag "rangeopenright" then Some (PRangeOpenRight a b)
+                  else if zs_eqb tag "rangeopen" then Some (PRangeOpen a b)
+                  else if zs_eqb tag "rangeclosed" then Some (PRangeClosed a b) else None
+      | _ => None
+      end
+  | _ => None
+  end.
+
+(* select: (form "field"|"row", field, pred, complement, missing, table) *)
+Definition run_select (arg : val) : val :=
+  match arg with
+  | VSeq _ [VStr form; field; pred; compl; missing; t] =>
+      match dec_bool compl, dec_table t with
+      | Some c, Some t' =>
+          if zs_eqb form "field" then
+            match dec_vpred pred with
+            | Some p => enc_gen (fieldselect_model field p c missing t')
+            | None => bad_input
+            end
+          else
+            match pred with
+            | VSeq _ [VStr tag; n] =>
+                if zs_eqb tag "len" then match dec_Z n with
+                                         | Some n' => enc_gen (rowselect_model (RLen n') c missing t')
+                                         | None => bad_input end
+                else bad_input
+            | VSeq _ [VStr tag; f; vp] =>
+                if zs_eqb tag "field" then match dec_vpred vp with
+                                           | Some p => enc_gen (rowselect_model (RField f p) c missing t')
+                                           | None => bad_input end
+                else bad_input
+            | _ => bad_input
+            end
+      | _, _ => bad_input
+      end
+  | _ => bad_input
+  end.
+
+(* rowslice: ((args...), table) ; tail / skip: (n, table) ; search: (pattern, field|None, complement, table) *)
+Definition run_rowslice (arg : val) : val :=
+  match arg with
+  | VSeq _ [VSeq _ args; t] =>
+      match dec_all (dec_opt dec_Z) args, dec_table t with
+      | Some a, Some t' => enc_gen (rowslice_model a t')
+      | _, _ => bad_input
+      end
+  | _ => bad_input
+  end.
+Definition run_tail (arg : val) : val :=
+  match arg with
+  | VSeq _ [n; t] => match dec_Z n, dec_table t with Some n', Some t' => enc_gen (tail_model n' t') | _, _ => bad_input end
+  | _ => bad_input
+  end.
+Definition run_skip (arg : val) : val :=
+  match arg with
+  | VSeq _ [n; t] => match dec_Z n, dec_table t with Some n', Some t' => enc_gen (skip_model n' t') | _, _ => bad_input end
+  | _ => bad_input
+  end.
+Definition run_search (arg : val) : val :=
+  match arg with
+  | VSeq _ [VStr pat; field; compl; t] =>
+      match dec_bool compl, dec_table t with
+      | Some c, Some t' => enc_gen (search_model pat (dec_key field) c t')
+      | _, _ => bad_input
+      end
+  | _ => bad_input
+  end.
+
 Definition run (op : list Z) (arg : val) : val :=
   if zs_eqb op "cmp" then run_cmp arg
   else if zs_eqb op "sort" then run_sort arg
@@ -525,6 +609,11 @@ Definition run (op : list Z) (arg : val) : val :=
   else if zs_eqb op "reduce" then run_reduce arg
   else if zs_eqb op "group_spec" then run_group_spec arg
   else if zs_eqb op "const_true" then vbool true
+  else if zs_eqb op "select" then run_select arg
+  else if zs_eqb op "rowslice" then run_rowslice arg
+  else if zs_eqb op "tail" then run_tail arg
+  else if zs_eqb op "skip" then run_skip arg
+  else if zs_eqb op "search" then run_search arg
   else if zs_eqb op "sv_run" then run_sv_run arg
   else if zs_eqb op "cv_run" then run_cv_run arg
   else if zs_eqb op "sv_history" then run_sv_history arg
